@@ -297,5 +297,7 @@ def run(ctx, rep):
     walkers.check_type_walker(ctx.mir, rep, "C15", "traverse::walk_types", "walk_types", False)
     simple_walker(ctx, rep, "C15", "traverse::walk_methods", "walk_methods")
     simple_walker(ctx, rep, "C15", "traverse::walk_args", "walk_args")
+    import loopstate
+    loopstate.rule(ctx, rep, "C15", ['traverse'])
     rep.assumptions += ["TB-1 rustc MIR", "TB-4 tabulator", "std slice iterators / for_each / try_for_each visit every element once, forward, and try_for_each stops at the first Break",
                         "one generic element per container stands for all (the closures carry no state between elements: they only capture the callback)"]
